@@ -221,7 +221,8 @@ int tokens_get_char(AsmContext *asm_context)
     {
       if (asm_context->tokens.token_buffer.code != NULL)
       {
-        ch = asm_context->tokens.token_buffer.code[asm_context->tokens.token_buffer.ptr];
+        // (unsigned: the byte 0xff is a character, as it is for getc())
+        ch = (unsigned char)asm_context->tokens.token_buffer.code[asm_context->tokens.token_buffer.ptr];
         if (ch == 0) { ch = EOF; }
         else { asm_context->tokens.token_buffer.ptr++; }
       }
